@@ -124,6 +124,7 @@ pub fn boolvec(ctx: &mut Ctx) {
             if any_true_possible {
                 let id = ctx.next_id;
                 ctx.next_id += 1;
+            ctx.mark_case(id);
                 if ctx.only.map(|o| o == id).unwrap_or(id as usize % ctx.nshards == ctx.shard) {
                     let missing: Vec<usize> = (0..size as usize).filter(|p| !reached.contains(p)).collect();
                     let v = if missing.is_empty() { Verdict::Pass } else { Verdict::fail("random_bool_vector", "unreachable-position", format!("size {} sparsity {}: no explored script sets position(s) {:?} TRUE (every outcome of the first index draw was explored)", size, s, missing)) };
@@ -320,6 +321,7 @@ pub fn instructions(ctx: &mut Ctx) {
         if nb > 0 {
             let id = ctx.next_id;
             ctx.next_id += 1;
+            ctx.mark_case(id);
             if ctx.only.map(|o| o == id).unwrap_or(id as usize % ctx.nshards == ctx.shard) {
                 let v = if seen.len() == nb { Verdict::Pass } else { Verdict::fail("NAME.RANDBOUNDNAME", "unreachable-name", format!("only {:?} of {} bound names are ever chosen", seen, nb)) };
                 ctx.record(id, &format!("{:?}", seen), v, || format!("{} reachability", lab));
@@ -477,6 +479,7 @@ pub fn history(ctx: &mut Ctx) {
         for (pi, p) in calls.iter().enumerate() {
             let id = ctx.next_id;
             ctx.next_id += 1;
+            ctx.mark_case(id);
             if !mine || ctx.only.map(|o| id > o).unwrap_or(false) {
                 continue;
             }
